@@ -6,7 +6,7 @@ THEOREMS = ['FlexVerif.bufferOp_start', 'FlexVerif.doWrap_start', 'FlexVerif.inp
 
 def run(ctx):
     q1, q2, q3 = {'quick': (64, 48, 32), 'thorough': (600, 400, 200)}[ctx.tier]
-    plan = [('eof', q1, 6), ('ops', q2, 6)]
+    plan = [('eof', q1, 6), ('ops', q2, 6), ('deepstack', q3, 4)]
     return rtprop.run(ctx, THEOREMS, plan, 'proof',
                       'start conditions: begin/push/pop/top scripts (underflow included) inside actions, with yywrap chains and EOF rules; yystart() and yy_top_state() are logged and compared' + '. Kernel-checked theorems about the abstract scanner (listed under obligations) + differential '
                       'correspondence of the real generated scanner (ASan/UBSan build) with that model on generated cases.')
